@@ -242,6 +242,8 @@ CHECKS = {
                   "targets": ["cursorManager).SetCursor", "cursorManager).GetCursor", "cursorManager).getLatestCursorOffset", "apiServer).SubscribeInternal", "ReverseReader).ReadMessage"]},
                  {"name": "VerifC11Concurrent", "quick": {"preemptions": 1}, "thorough": {"preemptions": 2}, "replay": "interpreted", "max-paths": 3000000,
                   "covers": ["done"], "targets": ["cursorManager).SetCursor", "cursorManager).GetCursor", "cursorManager).getLatestCursorOffset"]},
+                 {"name": "VerifC11ConcurrentSets", "quick": {"preemptions": 1}, "thorough": {"preemptions": 2}, "replay": "interpreted", "max-paths": 3000000,
+                  "covers": ["done", "second-setter-first"], "targets": ["cursorManager).SetCursor", "cursorManager).GetCursor", "cursorManager).getLatestCursorOffset"]},
              ]},
         ],
     },
